@@ -174,10 +174,15 @@ pub fn eval_doc(src: &str) -> String {
             let mut spans_ok = true;
             walk(src, &v, &cm, 0, &mut nav, &mut spans_ok);
             let s = format!(
-                "V={} C={} CA={} T={} F={} S={} N={}",
+                "V={} C={} CA={}/{}/{}/{}/{}/{} T={} F={} S={} N={}",
                 v.volume(),
                 count,
                 v.count(|_, f| f.is_array() || f.is_object()),
+                v.count(|_, _| true),
+                v.count(|_, f| f.is_key()),
+                v.count(|_, f| f.is_entry()),
+                v.count(|i, _| i % 2 == 0),
+                v.count(|i, f| i % 3 == 1 && f.is_value()),
                 trav.join(","),
                 frags.join(","),
                 spans_ok as u8,
